@@ -181,6 +181,24 @@ fn main() {
             }
             println!("{}", serde_json::to_string(&serde_json::Value::Object(out)).unwrap());
         }
+        Some("dump-exits") => {
+            // development aid: exits (decisions -> result) of the functions named `name` in a source file
+            let rel = args.get(2).cloned().unwrap_or_else(|| usage());
+            let name = args.get(3).cloned().unwrap_or_else(|| usage());
+            if let Ok(src) = srcmodel::load(&repo, &rel) {
+                for i in src.impls() {
+                    for it in &i.items {
+                        if let syn::ImplItem::Fn(f) = it {
+                            if f.sig.ident == name {
+                                for e in srcmodel::exits(&f.block) {
+                                    println!("{:?} => {}", e.conds, e.result.chars().take(90).collect::<String>());
+                                }
+                            }
+                        }
+                    }
+                }
+            }
+        }
         Some("dump-fn") => {
             // development aid: normalised compact text of the functions named `name` in a source file
             let rel = args.get(2).cloned().unwrap_or_else(|| usage());
